@@ -13,6 +13,7 @@ from spaces_common import *
 
 KNOWN = {("DUBINS", "interp-in-bounds"): "C07-dubins-family-leaves-bounds", ("DUBINSSYM", "interp-in-bounds"): "C07-dubins-family-leaves-bounds",
          ("RS", "interp-in-bounds"): "C07-dubins-family-leaves-bounds",
+         ("DUBINS", "interp-reparam"): "C07-dubins-near-coincident-reparam",
          ("DUBINSSYM", "interp-reparam"): "C07-dubins-family-reparam", ("RS", "interp-reparam"): "C07-dubins-family-reparam",
          ("SO3", "interp-geodesic"): "C07-so3-near-coincident", ("SE3", "interp-geodesic"): "C07-so3-near-coincident",
          ("DISC", "interp-reparam"): "C07-discrete-reparam", ("MIX", "interp-reparam"): "C07-discrete-reparam"}
